@@ -25,6 +25,17 @@ use crate::error::Error;
 use super::{ExprType, FlagsState, GeneratorState};
 
 impl<'a> GeneratorState<'a> {
+    // STX/STY do not touch the status flags: once the register is stored to memory, the flags
+    // no longer describe the content of that memory location
+    fn forget_memory_flags(&mut self) {
+        if matches!(
+            self.flags,
+            FlagsState::Absolute(_, _, _) | FlagsState::AbsoluteX(_) | FlagsState::AbsoluteY(_)
+        ) {
+            self.flags = FlagsState::Unknown;
+        }
+    }
+
     pub(crate) fn generate_assign(
         &mut self,
         left: &ExprType,
@@ -211,6 +222,7 @@ impl<'a> GeneratorState<'a> {
                         match left {
                             ExprType::Absolute(_, _, _) => {
                                 self.asm(STX, left, pos, high_byte)?;
+                                self.forget_memory_flags();
                                 /*
                                 if !eight_bits {
                                     if *offset == 0 {
@@ -250,6 +262,7 @@ impl<'a> GeneratorState<'a> {
                                     && v.var_type != VariableType::CharPtr
                                 {
                                     self.asm(STX, left, pos, high_byte)?;
+                                    self.forget_memory_flags();
                                 } else {
                                     if self.acc_in_use {
                                         self.sasm(PHA)?;
@@ -295,6 +308,7 @@ impl<'a> GeneratorState<'a> {
                         match left {
                             ExprType::Absolute(_, _, _) => {
                                 self.asm(STY, left, pos, high_byte)?;
+                                self.forget_memory_flags();
                                 /*
                                 if !eight_bits {
                                     if *offset == 0 {
@@ -332,6 +346,7 @@ impl<'a> GeneratorState<'a> {
                                 let v = self.compiler_state.get_variable(variable);
                                 if v.memory == VariableMemory::Zeropage {
                                     self.asm(STY, left, pos, high_byte)?;
+                                    self.forget_memory_flags();
                                 } else {
                                     if self.acc_in_use {
                                         self.sasm(PHA)?;
